@@ -68,10 +68,13 @@ def step (op : String) (gs : List (List Int)) : String :=
     match mkProblem n.toNat c.toNat f fden bw bden s mask with
     | none => "err BadOp"
     | some P => if y.length ≠ 2 * P.c * P.n then "err BadOp" else okLast (aStar P.ops (vecLast y 1))
-  | "astara", [[n, c], f, [fden], bw, [bden], s, mask, x] =>
+  | "astara", [[n, c, xc], f, [fden], bw, [bden], s, mask, x] =>
     match mkProblem n.toNat c.toNat f fden bw bden s mask with
     | none => "err BadOp"
-    | some P => if x.length ≠ 2 * P.n then "err BadOp" else okLast (aStarA P.ops (vecLast x 1))
+    | some P =>
+      -- `expand_operator` asserts a trailing axis of size 2
+      if xc ≠ 2 then "err AssertionError"
+      else if x.length ≠ 2 * P.n then "err BadOp" else okLast (aStarA P.ops (vecLast x 1))
   | "bop", [[n, c], f, [fden], bw, [bden], s, mask, x, [lnum, lden]] =>
     match mkProblem n.toNat c.toNat f fden bw bden s mask with
     | none => "err BadOp"
